@@ -512,6 +512,16 @@ def gen_schema(d, *, max_types=8, rich_names=True, defaults=0.3, custom_scalars=
     if subscription:
         desc.subscription = "Subscription" if desc.query == "Query" else "RootS"
         desc.objects[desc.subscription] = {"implements": [], "fields": root_fields(1, 2, False)}
+        # subscriptions want filters: an input-object argument (its variables travel in the subscribe message, a code
+        # path of its own in the base clients)
+        for f in desc.objects[desc.subscription]["fields"]:
+            if desc.inputs and not any(a[1].strip("[]!") in desc.inputs for a in f["args"]) and d.bool(0.6):
+                iname = d.choice(list(desc.inputs))
+                taken = {a[0] for a in f["args"]}
+                aname = next((n for n in ("filter", "where", "input", "filterBy") if n not in taken), None)
+                if aname:
+                    f["args"] = list(f["args"]) + [(aname, d.choice(["{}", "{}!", "[{}!]"]).format(iname), None)]
+                    d.tag("schema.subscription_input_arg")
     return desc
 
 
